@@ -20,8 +20,8 @@ static void links_reset(void);
 static void shim_reset(void) { for (int i = 0; i < NSLOT; i++) L[i] = NULL; it_kind = 0; sparse = 0; links_reset(); }
 
 /* ---- harness callbacks ---- */
-static int cmp_num(const void *a, const void *b) { uintptr_t x = (uintptr_t)a, y = (uintptr_t)b; return x < y ? -1 : x > y; }
-static int cmp_key(const void *a, const void *b) { uintptr_t x = (uintptr_t)a % 10, y = (uintptr_t)b % 10; return x < y ? -1 : x > y; }
+static int cmp_num(const void *a, const void *b) { uintptr_t x = (uintptr_t)a, y = (uintptr_t)b; return verif_mag(x < y ? -1 : x > y); }
+static int cmp_key(const void *a, const void *b) { uintptr_t x = (uintptr_t)a % 10, y = (uintptr_t)b % 10; return verif_mag(x < y ? -1 : x > y); }
 static int cmpq_num(const void *a, const void *b) { return cmp_num(*(void *const *)a, *(void *const *)b); }
 static bool pred_even(const void *e) { return (uintptr_t)e % 2 == 0; }
 static void *cp_plus(void *e) { return PTR((uintptr_t)e + 1000); }
@@ -83,7 +83,7 @@ static void o_ptr(const char *name, int k, Node *p) {
    order, along `next` from `head`) and keeps it while it stays on some list; `links<k>=[id:data:prev:next,...]` prints the
    actual prev/next pointers through that table (`-` NULL, `?` a pointer to no listed node).  The Lean driver runs the
    pointer-level model (Model/PList.lean) alongside and numbers its nodes in the same way, so L3 compares the link
-   structure and the identity of the nodes.  After an operation that has no pointer-level model (sort*, mk_*)
+   structure and the identity of the nodes.  After an operation that has no pointer-level model (mk_*)
    both sides renumber from scratch. */
 #define DCAP (1u << 19)
 typedef struct { Node *p; unsigned long id; unsigned long gen; } DEnt;
@@ -181,7 +181,7 @@ static void do_op(Cmd *c) {
     int is_it = !strncmp(c->op, "it_", 3) || !strncmp(c->op, "dit_", 4) || !strncmp(c->op, "zit_", 4);
     if (!is_it && !is_op(c, "observe")) it_kind = 0;
     {   /* operations without a pointer-level model: renumber the nodes afterwards (Driver/DList.lean: plUnsupported) */
-        static const char *un[] = { "sort", "sort_in_place", "mk_sub", "mk_copy_shallow", "mk_copy_deep", "mk_filter", NULL };
+        static const char *un[] = { NULL };
         int k0 = (int)kv_u64(c, "o", 0), f0 = (int)kv_u64(c, "from", 1), t0 = (int)kv_u64(c, "to", 1);
         if (k0 >= 0 && k0 < NSLOT && f0 >= 0 && f0 < NSLOT && t0 >= 0 && t0 < NSLOT)
             for (int i = 0; un[i]; i++) if (is_op(c, un[i])) links_renumber = 1;
